@@ -1,1 +1,65 @@
-fn main() { println!("{:?}", cel_interpreter::Program::compile("1+1").unwrap().execute(&cel_interpreter::Context::default())); }
+mod drive_eval;
+mod enc;
+mod gen;
+mod rng;
+mod run;
+mod zoo;
+
+use std::io::Write;
+
+fn arg<'a>(args: &'a [String], name: &str) -> Option<&'a str> {
+    args.iter().position(|a| a == name).and_then(|i| args.get(i + 1)).map(|s| s.as_str())
+}
+
+fn main() {
+    let args: Vec<String> = std::env::args().collect();
+    if args.len() < 2 {
+        eprintln!("usage: celconf <drive-eval|...> [options]");
+        std::process::exit(2);
+    }
+    run::install_panic_hook();
+    let seed: u64 = arg(&args, "--seed").and_then(|s| s.parse().ok()).unwrap_or(1);
+    let n: usize = arg(&args, "--n").and_then(|s| s.parse().ok()).unwrap_or(100);
+    let depth: usize = arg(&args, "--depth").and_then(|s| s.parse().ok()).unwrap_or(0);
+    let out_path = arg(&args, "--out").unwrap_or("/dev/stdout").to_string();
+    match args[1].as_str() {
+        "drive-eval" => {
+            let profile = arg(&args, "--profile").unwrap_or("c03");
+            let mut out = std::io::BufWriter::new(std::fs::File::create(&out_path).expect("open out"));
+            let st = drive_eval::drive(profile, seed, n, depth, &mut out);
+            out.flush().unwrap();
+            eprintln!("drive-eval profile={} cases={} compile_fail={} panics={}", profile, st.cases, st.compile_fail, st.panics);
+        }
+        "replay-case" => {
+            // re-run one recorded case (source text + context variables) against the current tree
+            let path = arg(&args, "--case").expect("--case");
+            let j: serde_json::Value = serde_json::from_str(&std::fs::read_to_string(path).expect("read case")).expect("json");
+            let src = j["src"].as_str().expect("src");
+            let mut vars = vec![];
+            if let Some(vs) = j["vars"].as_array() {
+                for v in vs {
+                    vars.push((v[0].as_str().unwrap().to_string(), enc::unvalue(&v[1]).expect("value")));
+                }
+            }
+            let mut out = std::io::BufWriter::new(std::fs::File::create(&out_path).expect("open out"));
+            let id = j["id"].as_u64().unwrap_or(1) as usize;
+            match drive_eval::case_for(id, src, &vars) {
+                Some(c) => writeln!(out, "{}", c).unwrap(),
+                None => writeln!(out, "{}", serde_json::json!({"ev":"case","id":id,"src":src,"out":{"k":"compile_err"}})).unwrap(),
+            }
+            out.flush().unwrap();
+        }
+        "src" => {
+            // run one source text with an empty context (debugging aid / replay)
+            let src = arg(&args, "--src").expect("--src");
+            match drive_eval::case_for(1, src, &[]) {
+                Some(c) => println!("{}", c),
+                None => println!("{{\"k\":\"compile_err\"}}"),
+            }
+        }
+        other => {
+            eprintln!("unknown command {}", other);
+            std::process::exit(2);
+        }
+    }
+}
